@@ -160,11 +160,11 @@ func (mw *Middleware) Wrap(next dnsserver.Handler) (wrapped dnsserver.Handler) {
 		if !cont {
 			// Don't wrap the error, because this is the main flow, and there is
 			// already [errors.Annotate] here.
-			return err
+			return mw.serveDeviceErr(ctx, rw, req, ri, err)
 		}
 
 		if locErr != nil {
-			return mw.processLocationErr(ctx, rw, req, locErr)
+			return mw.serveLocationErr(ctx, rw, req, ri, locErr)
 		}
 
 		ctx = agd.ContextWithRequestInfo(ctx, ri)
@@ -175,6 +175,55 @@ func (mw *Middleware) Wrap(next dnsserver.Handler) (wrapped dnsserver.Handler) {
 	}
 
 	return dnsserver.HandlerFunc(f)
+}
+
+// serveDeviceErr finishes a request that has been stopped by the device result.
+// If devErr is nil, the request is dropped.  Otherwise, devErr is returned to
+// the server, which responds with a SERVFAIL.  That response is a response like
+// any other, so the request goes through the ratelimiting first: otherwise a
+// client could receive an unlimited number of them.
+func (mw *Middleware) serveDeviceErr(
+	ctx context.Context,
+	rw dnsserver.ResponseWriter,
+	req *dns.Msg,
+	ri *agd.RequestInfo,
+	devErr error,
+) (err error) {
+	if devErr == nil {
+		return nil
+	}
+
+	h := dnsserver.HandlerFunc(func(
+		_ context.Context,
+		_ dnsserver.ResponseWriter,
+		_ *dns.Msg,
+	) (err error) {
+		return devErr
+	})
+
+	return mw.serveWithRatelimiting(ctx, rw, req, ri, h)
+}
+
+// serveLocationErr responds to a request with a malformed EDNS Client Subnet
+// option.  The FORMERR is a response like any other, so the request goes
+// through the ratelimiting first: otherwise a client could receive an unlimited
+// number of them.
+func (mw *Middleware) serveLocationErr(
+	ctx context.Context,
+	rw dnsserver.ResponseWriter,
+	req *dns.Msg,
+	ri *agd.RequestInfo,
+	locErr error,
+) (err error) {
+	h := dnsserver.HandlerFunc(func(
+		ctx context.Context,
+		rw dnsserver.ResponseWriter,
+		req *dns.Msg,
+	) (err error) {
+		return mw.processLocationErr(ctx, rw, req, locErr)
+	})
+
+	return mw.serveWithRatelimiting(ctx, rw, req, ri, h)
 }
 
 // processLocationErr processes the error returned by [Middleware.location] and
